@@ -1,6 +1,7 @@
 import SigModel.Model.Conc
 import Oracle.Util
 import Oracle.C11Create
+import Oracle.C11Flush
 /- suite "conc":  c11 <S> <label> …   label ::= f<i> | r<i> | q<j>r | q<j>s     (see harness/cmd/corr/c11_conc.go)
    → steps=<i>:<step>,… | q<j>:<kind> U=[segs] R=[segs] res=[blocks] (or cnt=<n>) | … | unrot=[seg:n,…] rot=[…] | final=[blocks] cnt=<n>
    The schedule is run on the interleaving machine with the orders extracted from the source (Cfg.real); then
@@ -9,6 +10,7 @@ import Oracle.C11Create
    c11w ssr | c11w reader → ok | lost | crash   (the read of one request with the rotation inside a check-then-look-up
    window; Model/Conc.lean, namespace ReadOne)
    c11c <S> <label> … → get-or-create of the segstore table: Oracle/C11Create.lean (Model/ConcCreate.lean)
+   c11f <n> <tok> …   → concurrent flushes of different segstores: Oracle/C11Flush.lean (Model/ConcFlush.lean)
    suite "concstress":  c11stress <seed> <procs> <ms> <indexes> <race> → "ok" (exploration: the model has no
    opinion on timing; the worker checks the property statement directly). -/
 namespace Oracle.C11
@@ -135,5 +137,6 @@ def handle (cmd : String) (args : List String) : Option String :=
   | "c11w" => some (window args)
   | "c11stress" => some (stress args)
   | "c11c" => C11Create.handle cmd args   -- get-or-create of the segstore table (Oracle/C11Create.lean)
+  | "c11f" => C11Flush.handle cmd args    -- concurrent flushes of different segstores (Oracle/C11Flush.lean)
   | _ => none
 end Oracle.C11
